@@ -127,6 +127,77 @@ def verify(before_vec, floor, after, order, dims, actions, tol=TOL, keep_tags=()
     return e
 
 
+class OpWatch:
+    """Snapshot of an operator OBJECT handed to a gating call (Tensor / TensorNetwork / MPO ...).  Unless the call's documented
+    in-place flag for the operator is set, the object must be bit- and label-identical afterwards, must not share tensor objects
+    with the returned network, and must stay so under later in-place edits of the returned network."""
+
+    ID_ATTRS = ("upper_ind_id", "lower_ind_id", "site_ind_id", "site_tag_id")
+
+    def __init__(self, op):
+        self.op = op
+        self.snap = self.take(op)
+
+    @classmethod
+    def take(cls, op):
+        ts = list(op.tensor_map.items()) if hasattr(op, "tensor_map") else [(None, op)]
+        return ([(tid, tuple(t.inds), tuple(t.tags), np.array(t.data, copy=True)) for tid, t in ts],
+                {a: getattr(op, a) for a in cls.ID_ATTRS if isinstance(getattr(op, a, None), str)},
+                float(getattr(op, "exponent", 0.0) or 0.0))
+
+    def check(self, when, **info):
+        old, new = self.snap, self.take(self.op)
+        if old[1] != new[1]:
+            raise Violation("operator-mutated", what="ind/tag ids", when=when, **info)
+        if len(old[0]) != len(new[0]) or old[2] != new[2]:
+            raise Violation("operator-mutated", what="tensor set", when=when, **info)
+        for (tid0, i0, t0, d0), (tid1, i1, t1, d1) in zip(old[0], new[0]):
+            if tid0 != tid1 or i0 != i1:
+                raise Violation("operator-mutated", what="labels", when=when, **info)
+            if t0 != t1:
+                raise Violation("operator-mutated", what="tags", when=when, **info)
+            if d0.shape != d1.shape or d0.dtype != d1.dtype or not np.array_equal(d0, np.asarray(d1)):
+                raise Violation("operator-mutated", what="data", when=when, **info)
+
+    def check_unshared(self, res, when, **info):
+        mine = {id(t) for t in (self.op.tensor_map.values() if hasattr(self.op, "tensor_map") else [self.op])}
+        theirs = res.tensor_map.values() if hasattr(res, "tensor_map") else [res]
+        if any(id(t) in mine for t in theirs):
+            raise Violation("operator-aliased", when=when, **info)
+
+    def scribble(self, results, **info):
+        """In-place edits of the returned networks (relabel every index, retag, rescale the data) must not reach the operator."""
+        for n, res in enumerate(results):
+            ts = list(res.tensor_map.values()) if hasattr(res, "tensor_map") else [res]
+            for t in ts:
+                t.modify(data=np.asarray(t.data) * 3.0, inds=tuple(f"__scr{n}_{ix}" for ix in t.inds), tags=["__SCR"])
+        self.check("after in-place edits of the results", **info)
+
+
+class ArrayWatch:
+    """A gate given as a raw array must come back bit-identical."""
+
+    def __init__(self, arr):
+        self.arr, self.copy = arr, np.array(arr, copy=True)
+
+    def check(self, **info):
+        if self.arr.shape != self.copy.shape or not np.array_equal(self.arr, self.copy):
+            raise Violation("gate-array-mutated", **info)
+
+
+def shifted(desc_or_cd, shift=1):
+    """Same structure, different numbers: a second receiver for re-using one operator object."""
+    import copy
+
+    d = copy.deepcopy(desc_or_cd)
+    if "tensors" in d:
+        for t in d["tensors"]:
+            t["seed"] = (int(t["seed"]) + shift) % (2**31 - 1)
+    else:
+        d["seed"] = (int(d["seed"]) + shift) % (2**31 - 1)
+    return d
+
+
 # ---------------------------------------------------------------------------
 # gates
 # ---------------------------------------------------------------------------
@@ -312,6 +383,7 @@ def run_tensor_gate(case):
     before = dense(t, order)
     floor = magnitude(t)
     old_inds = tuple(t.inds)
+    gwatch = ArrayWatch(Garg)
     kw = {"preserve_inds": case["preserve_inds"]}
     with warnings.catch_warnings():
         warnings.simplefilter("ignore", FutureWarning)
@@ -323,6 +395,7 @@ def run_tensor_gate(case):
     if case["inplace"] and res is not t:
         raise Violation("inplace-identity", entry="Tensor.gate")
     info = dict(entry="Tensor.gate", transpose=case["transpose"], preserve_inds=case["preserve_inds"])
+    gwatch.check(**info)
     if case["preserve_inds"] and tuple(res.inds) != old_inds:
         raise Violation("index-order", got=list(res.inds), want=list(old_inds), **info)
     e = verify(before, floor, res, order, dims, [(effective(Gm, case["transpose"]), [order.index(ix)])],
@@ -382,8 +455,10 @@ def run_inds_basic(case):
     kw = dict(contract=case["contract"], transpose=case["transpose"], dagger=case["dagger"], tags=case["tags"])
     if case["cutoff"]:
         kw["cutoff"] = 0.0  # documented: ignored by modes that do not split
+    gwatch = ArrayWatch(Garg)
     res = call_gate_inds(tn, Garg, tuple(inds) if case["str_ind"] else list(inds), case, **kw)  # tuple / list spelling
     info = dict(entry="gate_inds", contract=case["contract"], transpose=case["transpose"], dagger=case["dagger"], k=len(inds))
+    gwatch.check(**info)
     op = effective(Gm, case["transpose"], case["dagger"])
     e = verify(before, floor, res, order, dims, [(op, [order.index(l) for l in inds])],
                keep_tags=alltags + given_tags(case["tags"]), **info)
@@ -624,18 +699,37 @@ def run_inds_with_tn(case):
         (gate,) = list(gate)
     before, floor = dense(tn, order), magnitude(tn)
     alltags = sorted(tn.tags)
-    if case["inplace"]:
-        res = tn.gate_inds_with_tn_(tgt, gate, gi, go)
-        if res is not tn:
-            raise Violation("inplace-identity", entry="gate_inds_with_tn")
-    else:
-        res = tn.gate_inds_with_tn(tgt, gate, gi, go)
     info = dict(entry="gate_inds_with_tn", form=case["form"], k=k, missing=len(miss))
+    watch = OpWatch(gate)
+
+    def apply(x):
+        if case["inplace"]:
+            r = x.gate_inds_with_tn_(tgt, gate, gi, go)
+            if r is not x:
+                raise Violation("inplace-identity", **info)
+            return r
+        return x.gate_inds_with_tn(tgt, gate, gi, go)
+
+    res = apply(tn)
+    watch.check("after the call", **info)
+    watch.check_unshared(res, "after the call", **info)
     gfloor = float(np.prod([max(np.linalg.norm(a), 1e-300) for a, _ in gts]))
     if not miss:
         Gm = einsum_value([(c128(a), l) for a, l in gts], tuple(go) + tuple(gi)).reshape(int(np.prod(tdims)), -1)
-        e = verify(before, floor * gfloor / max(np.linalg.norm(Gm), 1e-300), res, order, dims,
-                   [(Gm, [order.index(l) for l in inds])], keep_tags=alltags + ["GATE"], **info)
+        act = [(Gm, [order.index(l) for l in inds])]
+        sc = gfloor / max(np.linalg.norm(Gm), 1e-300)
+        e = verify(before, floor * sc, res, order, dims, act, keep_tags=alltags + ["GATE"], **info)
+        # the same gate object again: on a second receiver, and a second time on the first result
+        tn_b = G.build_network(shifted(desc))
+        before_b, floor_b = dense(tn_b, order), magnitude(tn_b)
+        res_b = apply(tn_b)
+        e = max(e, verify(before_b, floor_b * sc, res_b, order, dims, act, keep_tags=alltags + ["GATE"], reuse="second receiver", **info))
+        e = max(e, verify(before, floor * sc, res, order, dims, act, keep_tags=alltags + ["GATE"], reuse="first result afterwards", **info))
+        mid, mfloor = dense(res, order), magnitude(res)
+        res2 = apply(res)
+        e = max(e, verify(mid, mfloor * sc, res2, order, dims, act, keep_tags=alltags + ["GATE"], reuse="twice", **info))
+        watch.check("after re-use", **info)
+        watch.scribble({id(r): r for r in (res, res_b, res2)}.values(), **info)
     else:
         # independent rewiring: present targets are joined to the gate's inner label, the gate's outer label takes the
         # target's name; for absent targets the gate keeps both its labels
@@ -796,16 +890,6 @@ def chain_arrays(cd, op=False, seed_shift=0, sites=None, bonds=None):
             x = x + 1j * rng.normal(size=shp)
         arrs.append(x / max(1.0, np.sqrt(x.size) / 2))
     return arrs
-
-
-def operator_intact(op, labels, Om, ofloor, **info):
-    """The operator network handed to a gate call (not flagged in-place) still denotes Om on its own labels."""
-    if not set(labels) <= set(op.outer_inds()):
-        raise Violation("operator-mutated", what="labels", **info)
-    e = rel_err(dense(op, labels), np.asarray(Om).reshape(-1), floor=ofloor)
-    if not e <= TOL:
-        raise Violation("operator-mutated", what="value", err=e, **info)
-    return e
 
 
 def build_mps(cd):
@@ -1245,7 +1329,7 @@ def s_mps_submpo(draw, tier):
             "method": draw(st.sampled_from(NONLOCAL_METHODS)), "transpose": draw(st.booleans()), "inplace": draw(st.booleans()),
             "where": draw(st.sampled_from(["none", "sites", "range"])), "inplace_mpo": draw(st.sampled_from([False, False, True])),
             "op_ids": draw(st.sampled_from([["k{}", "b{}"], ["k{}", "b{}"], ["x{}", "y{}"], ["b{}", "k{}"]])),
-            "reuse": draw(st.booleans())}
+            "reuse": draw(st.sampled_from([True, True, True, False]))}
 
 
 def run_mps_submpo(case):
@@ -1277,9 +1361,16 @@ def run_mps_submpo(case):
             kw["where"] = (sites[0], sites[-1])  # "the range of sites the MPO acts on"
     before, floor = dense(psi, order), magnitude(psi)
     alltags, ntens, cls0 = sorted(psi.tags), psi.num_tensors, type(psi)
-    info = dict(entry="MPS." + entry, method=method, k=k, transpose=case["transpose"])
-    f = getattr(psi, entry + ("_" if case["inplace"] else ""))
-    res = f(mpo, **kw)
+    info = dict(entry="MPS." + entry, method=method, k=k, transpose=case["transpose"], spelling="_" if case["inplace"] else "plain")
+    watch = OpWatch(mpo)
+
+    def apply(x):
+        r = getattr(x, entry + ("_" if case["inplace"] else ""))(mpo, **kw)
+        if case["inplace"] and r is not x:
+            raise Violation("inplace-identity", **info)
+        return r
+
+    res = apply(psi)
     tol = TOL if method in ("direct", "lazy") else INV64
     e = verify(before, floor * ofloor / max(np.linalg.norm(Om), 1e-300), res, order, dims,
                [(effective(Om, case["transpose"]), sites)], keep_tags=alltags, tol=tol, **info)
@@ -1288,15 +1379,25 @@ def run_mps_submpo(case):
         raise Violation("tensor-count", got=res.num_tensors, want=ntens, **info)
     reused = False
     if not case["inplace_mpo"]:
-        # inplace_mpo=False: "whether to reindex the operator inplace" -> the caller's operator object is left alone ...
-        e = max(e, operator_intact(mpo, uo + lo, Om, ofloor, **info))
-        if case.get("reuse"):
-            # ... and can therefore be applied again: the second application multiplies by the same operator once more
+        # inplace_mpo=False ("whether to reindex the operator inplace"): the caller's operator object is left alone and shares
+        # nothing with the result ...
+        watch.check("after the call", **info)
+        watch.check_unshared(res, "after the call", **info)
+        if case.get("reuse", True):
+            # ... so the very same object can be applied again: to a second state, and a second time to the first result
             reused = True
+            sc = ofloor / max(np.linalg.norm(Om), 1e-300)
+            act = [(effective(Om, case["transpose"]), sites)]
+            psi_b = build_mps(shifted(cd))
+            before_b, floor_b = dense(psi_b, order), magnitude(psi_b)
+            res_b = apply(psi_b)
+            e = max(e, verify(before_b, floor_b * sc, res_b, order, dims, act, keep_tags=alltags, tol=tol, reuse="second state", **info))
+            e = max(e, verify(before, floor * sc, res, order, dims, act, keep_tags=alltags, tol=tol, reuse="first result afterwards", **info))
             mid, mfloor = dense(res, order), magnitude(res)
-            res2 = getattr(res, entry + ("_" if case["inplace"] else ""))(mpo, **kw)
-            e = max(e, verify(mid, mfloor * ofloor / max(np.linalg.norm(Om), 1e-300), res2, order, dims,
-                              [(effective(Om, case["transpose"]), sites)], keep_tags=alltags, tol=tol, second=True, **info))
+            res2 = apply(res)
+            e = max(e, verify(mid, mfloor * sc, res2, order, dims, act, keep_tags=alltags, tol=tol, reuse="twice", **info))
+            watch.check("after re-use", **info)
+            watch.scribble({id(r): r for r in (res, res_b, res2)}.values(), **info)
     return {"nt": True, "err": e,
             "cls": ["entry=" + entry, "method=" + method, f"T={case['transpose']}", f"sites={k}", "where=" + case["where"],
                     "contiguous" if sites == list(range(sites[0], sites[-1] + 1)) else "gaps", "ids=" + up + low,
@@ -2012,7 +2113,7 @@ def s_op_lazy(draw, tier):
     return {"graph": gd, "target_op": target_op, "entry": entry, "sub": sub, "aedges": aedges,
             "abdims": [draw(st.sampled_from([1, 2, 3])) for _ in aedges], "aseed": draw(A.seeds), "adtype": draw(st.sampled_from(A.DTYPES64)),
             "flag": draw(st.booleans()), "inplace": draw(st.booleans()), "inplace_op": draw(st.sampled_from([False, False, True])),
-            "reuse": draw(st.booleans()),
+            "reuse": draw(st.sampled_from([True, True, True, False])),
             "aids": draw(st.sampled_from([["k{}", "b{}"], ["x{}", "y{}"], ["b{}", "k{}"]]))}
 
 
@@ -2052,11 +2153,16 @@ def run_op_lazy(case):
     else:
         kw = {"dagger": flag}
         actions = [(Am.conj().T, up), (Am.T, low)] if flag else [(Am, up), (Am.conj(), low)]   # A^dag B A | A B A^dag
-    info = dict(entry=entry, flag=flag, subset=len(sub) < n)
-    f = getattr(tn, entry + ("_" if case["inplace"] else ""))
-    res = f(Aop, **kw)
-    if case["inplace"] and res is not tn:
-        raise Violation("inplace-identity", **info)
+    info = dict(entry=entry, flag=flag, subset=len(sub) < n, spelling="_" if case["inplace"] else "plain")
+    watch = OpWatch(Aop)
+
+    def apply(x):
+        r = getattr(x, entry + ("_" if case["inplace"] else ""))(Aop, **kw)
+        if case["inplace"] and r is not x:
+            raise Violation("inplace-identity", **info)
+        return r
+
+    res = apply(tn)
     scale = afloor / max(float(np.linalg.norm(Am)), 1e-300)
     e = verify(before, floor * scale ** len(actions), res, order, vdims, actions, keep_tags=alltags + ["OP"], **info)
     check_class(cls0, res, **info)
@@ -2065,14 +2171,24 @@ def run_op_lazy(case):
         raise Violation("tensor-count", got=res.num_tensors, want=want_n, **info)
     reused = False
     if not (entry == "gate_with_op_lazy" and case["inplace_op"]):
-        # the operator network is only relabelled in place when inplace_op=True is passed: otherwise it survives the call ...
-        e = max(e, operator_intact(Aop, aorder, Am, afloor, **info))
-        if case.get("reuse"):
-            # ... and applying the very same object again multiplies by the same operator(s) once more
+        # the operator network is only relabelled in place when inplace_op=True is passed: otherwise it survives the call untouched
+        # and unshared ...
+        watch.check("after the call", **info)
+        watch.check_unshared(res, "after the call", **info)
+        if case.get("reuse", True):
+            # ... and the very same object can be applied again: to a second receiver and a second time to the first result
             reused = True
+            fl = scale ** len(actions)
+            tn_b = build_graph_tn(shifted(gd), op=top)
+            before_b, floor_b = dense(tn_b, order), magnitude(tn_b)
+            res_b = apply(tn_b)
+            e = max(e, verify(before_b, floor_b * fl, res_b, order, vdims, actions, keep_tags=alltags + ["OP"], reuse="second receiver", **info))
+            e = max(e, verify(before, floor * fl, res, order, vdims, actions, keep_tags=alltags + ["OP"], reuse="first result afterwards", **info))
             mid, mfloor = dense(res, order), magnitude(res)
-            res2 = getattr(res, entry + ("_" if case["inplace"] else ""))(Aop, **kw)
-            e = max(e, verify(mid, mfloor * scale ** len(actions), res2, order, vdims, actions, keep_tags=alltags + ["OP"], second=True, **info))
+            res2 = apply(res)
+            e = max(e, verify(mid, mfloor * fl, res2, order, vdims, actions, keep_tags=alltags + ["OP"], reuse="twice", **info))
+            watch.check("after re-use", **info)
+            watch.scribble({id(r): r for r in (res, res_b, res2)}.values(), **info)
     return {"nt": True, "err": e, "cls": ["entry=" + entry, f"flag={flag}", "subset" if len(sub) < n else "all-sites", f"opsites={len(sub)}",
                                           "ids=" + "".join(case["aids"]), "names=" + gd["names"]] + (["reused"] if reused else [])}
 
